@@ -182,7 +182,9 @@ fn to_quadratic(coeff_map: &HashMap<(usize, usize), f64>) -> v1::Quadratic {
     for ((row, col), val) in coeff_map.iter() {
         rows.push(*row as u64);
         columns.push(*col as u64);
-        values.push(*val);
+        // The file lists the lower triangle of the symmetric matrix Q in 1/2 x'Qx:
+        // an off-diagonal entry stands for Q_ij x_i x_j, a diagonal one for 1/2 Q_ii x_i^2.
+        values.push(if row == col { *val / 2.0 } else { *val });
     }
     v1::Quadratic {
         rows,
